@@ -782,6 +782,146 @@ def style_options(rep, lib):
                     r.bad(key, "must be %s" % ("rejected" if want_err else "accepted"), b.where())
 
 
+
+# ------------------------------------------------------------------ C18-DIRECTION-WHOLE / C18-DUP-SET
+
+WHOLE_TEXT = common.LOOK + ("<impl str>::to_uppercase", "<impl str>::to_lowercase", "<impl str>::to_ascii_uppercase",
+                            "<impl str>::to_ascii_lowercase", "<impl str>::trim", "<impl str>::trim_end",
+                            "<impl str>::trim_start", "String::as_str", "ToString>::to_string", "string::ToString::to_string",
+                            "ToOwned>::to_owned", "String::from_utf8", "Result::<T, E>::map_err", "From>::from",
+                            "convert::Into::into", "convert::From::from", "String::as_mut_str", "Option::<T>::as_deref")
+
+
+def direction_whole(rep, lib):
+    r = rep.rule("C18-DIRECTION-WHOLE", "the text that --sort-by compares with ASC / DESC is everything that follows "
+                 "the key expression (trimmed, case-folded), never a part of it: anything else after the expression "
+                 "makes the option invalid", floor=2,
+                 analysis="A4 provenance of the operand of every comparison with the constants ASC / DESC back to "
+                          "read_to_eof, through whole-text transformations only (an enumerated list); and of the "
+                          "text read_to_eof returns back to the vector every byte up to the end is pushed on")
+    b = lib.bodies.get("<sorters::Sorter as std::str::FromStr>::from_str")
+    if b is None:
+        r.missing("Sorter::from_str")
+        return
+    pr = Prov(b, WHOLE_TEXT)
+    eqs = []
+    for c in b.calls:
+        for ai, a in enumerate(c.args):
+            if a.get("k") == "const" and (a.get("s") or "").strip('"').upper() in ("ASC", "DESC") and '"' in (a.get("s") or ""):
+                eqs.append((c, 1 - ai if len(c.args) == 2 else 0))
+    if not eqs:
+        r.bad("from_str#compare", "no comparison with the constants ASC / DESC found (unrecognised idiom)", b.where())
+        return
+    for c, oi in eqs:
+        at = pr.call_arg_origins(c, oi)
+        calls = sorted({b.call_at[a[1]].name or "?" for a in at if a[0] == "call"})
+        other = sorted({str(a) for a in at if a[0] in ("arg",)})
+        key = "from_str#%s" % (c.args[1 - oi].get("s") if len(c.args) == 2 else "cmp")
+        if len(calls) == 1 and calls[0].endswith("read_to_eof") and not other:
+            r.ok(key, "compares the whole (trimmed, upper-cased) remainder", c.where())
+        else:
+            r.bad(key, "the text compared with the direction keyword is not the whole remainder of the option: it "
+                  "comes through %s - what else follows the expression is never looked at, so an invalid option is "
+                  "accepted" % (calls + other), c.where())
+    rb = lib.bodies.get("sorters::read_to_eof")
+    if rb is None:
+        r.missing("sorters::read_to_eof")
+        return
+    prr = Prov(rb, WHOLE_TEXT)
+    good = False
+    why = "?"
+    oks = [(bb, idx, rv) for bb, idx, place, rv, _ in rb.assignments()
+           if rv["k"] == "agg" and rv.get("variant_name") == "Ok" and place["l"] in common.ret_locals(rb)]
+    pushes = [c for c in rb.calls if (c.name or "").endswith("::push") and rb.in_loop(c.bb)]
+    if len(oks) == 1 and pushes:
+        at = prr._rv_origins_at({"k": "use", "op": oks[0][2]["ops"][0]}, (), oks[0][0], oks[0][1], set())
+        calls = sorted({rb.call_at[a[1]].name or "?" for a in at if a[0] == "call"})
+        locs = set()
+        for a in at:
+            if a[0] in ("local", "outparam"):
+                locs.add(a[1])
+        vec_locals = {l for l, v in prr.outparams.items() if any(rb.call_at[mbb] in pushes for mbb, _ in v)}
+        ctor_of_vec = [a for a in at if a[0] == "call" and rb.call_at[a[1]].dest["l"] in vec_locals
+                       and not rb.call_at[a[1]].dest["p"]]
+        other_calls = [a for a in at if a[0] == "call" and a not in ctor_of_vec]
+        if not other_calls and (ctor_of_vec or locs & vec_locals or any(a[0] == "outparam" for a in at)):
+            good = True
+        else:
+            why = "calls on the way: %s; origins: %s" % (calls, sorted(map(str, at))[:4])
+    else:
+        why = "%d Ok aggregate(s), %d push(es) in a loop" % (len(oks), len(pushes))
+    if good:
+        r.ok("read_to_eof#whole", "returns every byte it consumed (trimmed)", rb.where())
+    else:
+        r.bad("read_to_eof#whole", "the text returned is not the whole of what was read to the end (%s)" % why, rb.where())
+
+
+KEYED = ("HashMap::<", "HashSet::<", "BTreeMap::<", "BTreeSet::<", "IndexMap::<", "IndexSet::<",
+         "hash::map::HashMap<", "hash::set::HashSet<")
+MEMBERSHIP = ("insert", "contains_key", "contains", "entry", "get", "insert_full")
+
+
+def duplicate_set(rep, lib):
+    r = rep.rule("C18-DUP-SET", "every --set is checked against all --set options before it: in the loop that parses "
+                 "them, every path from a parsed entry to the next turn passes a membership operation on a keyed "
+                 "collection that lives across the turns, and a key found present leads to the DuplicateKeys error",
+                 floor=2, analysis="A2 natural loop of the parse calls + must-pass-through + reachability of the "
+                                   "error aggregate from the membership answer")
+    bs = [bd for n, bd in lib.bodies.items() if n.endswith("pre_sets::PreSetCollection>::create_process")]
+    if not bs:
+        r.missing("PreSetCollection::create_process")
+        return
+    b = bs[0]
+    parse = [c for c in b.calls if (c.name or "").endswith("pre_sets::PreSet as std::str::FromStr>::from_str")
+             or ((c.callee or "").endswith("FromStr::from_str") and "PreSet" in (c.full or ""))
+             or ((c.callee or "") == "core::str::<impl str>::parse" and "PreSet" in " ".join(c.gargs or []))]
+    loops = b.loops()
+    parse = [c for c in parse if any(c.bb in blocks for blocks in loops.values())]
+    if not parse:
+        r.bad("create_process#parse-loop", "the --set texts are not parsed in a loop of this function (unrecognised "
+              "idiom)", b.where())
+        return
+    pc = parse[0]
+    h = min(hh for hh, blocks in loops.items() if pc.bb in blocks)
+    blocks = loops[h]
+    latches = [a for a, hh in b.back_edges() if hh == h]
+    memb = []
+    for c in b.calls:
+        if c.bb not in blocks:
+            continue
+        n = c.name or ""
+        if n.rsplit("::", 1)[-1] in MEMBERSHIP and any(k in n for k in KEYED):
+            memb.append(c)
+    if not memb:
+        r.bad("create_process#membership", "no parsed key is looked up in / inserted into a keyed collection while "
+              "the options are parsed: a key is not compared with *all* the keys before it, so some duplicate --set "
+              "is accepted", pc.where())
+        return
+    esc = b.must_pass([c.bb for c in memb], latches, start=pc.target if pc.target is not None else pc.bb)
+    # paths that leave the turn through an error return are fine; only the way round to the next turn matters
+    if esc:
+        r.bad("create_process#every-entry", "a parsed --set can reach the next turn of the loop without any "
+              "membership test (latch bb%s): that entry is never compared with the others" % esc, pc.where(),
+              witness=None)
+    else:
+        r.ok("create_process#every-entry", "%d membership operation(s); every way round the loop passes one"
+             % len(memb), pc.where())
+    dups = [(bb, idx) for bb, idx, place, rv, _ in b.assignments()
+            if rv["k"] == "agg" and rv.get("variant_name") == "DuplicateKeys"]
+    okd = 0
+    for c in memb:
+        if c.target is None:
+            continue
+        reach = b.reachable(c.target, avoid=set(latches) | {h})
+        if any(bb in reach for bb, _ in dups):
+            okd += 1
+    if dups and okd == len([c for c in memb if (c.name or "").rsplit("::", 1)[-1] in ("insert", "contains_key", "contains", "insert_full")]) and okd:
+        r.ok("create_process#duplicate-error", "a key found present leads to DuplicateKeys (%d site(s))" % okd, b.where(dups[0][0]))
+    else:
+        r.bad("create_process#duplicate-error", "%d membership test(s), %d of them can lead to the DuplicateKeys error "
+              "within the same turn" % (len(memb), okd), b.where())
+
+
 def run(ctx, rep):
     lib = ctx.lib
     go_order(rep, lib)
@@ -792,6 +932,8 @@ def run(ctx, rep):
     extract_truncated(rep, ctx)
     eof_observed(rep, lib)
     delimited_token(rep, lib)
+    direction_whole(rep, lib)
+    duplicate_set(rep, lib)
     style_options(rep, lib)
     # header-less csv: error before any write (shared with C15)
     PR.text_rows(rep, lib)
